@@ -10,7 +10,7 @@ from .c01 import call_simplifier, SIMPLIFIERS, cases as c01_cases
 ID = 'C08'
 TECHNIQUE = 'PBT over the parameterised demo pipeline + per-stage subsequence/height invariants + coordinate round trip'
 LEVEL_TEXT = 'Exploration: Completion and stage invariants on ~6.4k pipelines per quick run incl. bundled traces and integer-typed curves. Finds counter-examples (shrunk to a replay file); never proves absence.'
-RULE = ('Case = the demos\' pipeline, parameterised: (performance curve n >= 4 incl. the bundled traces; simplifier '
+RULE = ('Case = the demos\' pipeline, parameterised: (performance curve n >= 2 incl. the bundled traces; simplifier '
         'with its configuration (5); detector (5) with t1; corner threshold; linkage (4) x cluster threshold x '
         'ranking mode (4)).  Oracle: every stage completes under the loop guard; multi_knee -> worst-knee -> '
         'corner -> cluster filter each return an order-preserving subsequence of their input; from the worst-knee '
@@ -28,7 +28,7 @@ MODES = ['left', 'linear', 'right', 'hull']
 @st.composite
 def cases(draw, tier):
     big = tier != 'quick'
-    c = draw(S.curves(12, 60 if not big else 300,
+    c = draw(S.curves(2, 60 if not big else 300,
                       families=['mono_dec', 'mono_dec', 'convex', 'convex', 'noise', 'plateau', 'ulp', 'quant', 'steps',
                                 'pwl_dyadic', 'pwl_rational', 'trace', 'trace', 'concave', 'repo', 'outlier'],
                       big_n=160 if not big else 600))
